@@ -250,6 +250,32 @@ def check(run):
                 if im['ok']:
                     run.fail('C07: sync() returned Ok although the %s was an Error (scripted doers)' % label,
                              {'family': 'B', 'scenario': sc.to_json(), 'ls': ls, 'ld': ld, 'sched': sched, 'errs': e, 'srcfail': sf})
+        # ---- B2: an early Error reply followed by thousands of cheap entries.  Folders and symlinks are only polled in the main copy loop
+        # (files have their own poll inside copy_file), so an error that is noticed there and then forgotten again shows only when many such
+        # entries follow the failing one - with a handful of commands the reply arrives during the final blocking wait, which always sees it.
+        reqs2 = []
+        for v in range(3 if quick else 24):
+            sc = sync_e2e.Scenario()
+            sc.cfg = {'newer': 'A', 'older': 'A', 'same': 'S', 'entry': 'A', 'root': 'A'}
+            sc.outside = {'': {'k': 'dir'}}
+            n = rng.choice([2500, 4000]) if quick else rng.choice([1500, 4000, 9000])
+            src = {'': {'k': 'dir'}, 'a0': {'k': 'dir'}, 'a1': {'k': 'link', 'text': b'a0'}, 'a2': {'k': 'file', 'data': b'x', 'mtime_ns': sync_e2e.T0}}
+            for i in range(n):
+                src['z%05d' % i] = {'k': 'dir'} if i % 3 == 0 else {'k': 'link', 'text': b'a0'}
+            sc.src, sc.dest = src, {'': {'k': 'dir'}}
+            ls = scripted.model_listing(jbin, sc.src)
+            k = v % 3
+            reqs2.append((sc, ls, [], 'S' * len(ls), ((k, rng.choice([0, 1, 3])),), 'early reply k=%d of %d commands' % (k, len(ls))))
+        impl2 = scripted.run_batch(binary, [scripted.harness_line(sc, ls, ld, sched, errs=e) for sc, ls, ld, sched, e, _ in reqs2], timeout=1200)
+        for (sc, ls, ld, sched, e, label), im in zip(reqs2, impl2):
+            run.count('B2:early-error-many-entries')
+            run.case(('B2', len(ls), e), True)
+            run.traces_validated += 1
+            if im['ok']:
+                run.fail('C07: sync() returned Ok although the %s was an Error (scripted doers, %d cheap entries after it)' % (label, len(ls)),
+                         {'family': 'B2', 'n_entries': len(ls), 'errs': e})
+            elif len(im['dest']) >= len(ls):
+                run.count('B2:boss-sent-everything-before-noticing')
         # ---- C: natural failures ----
         for si, sc in enumerate([gen_c08(rng, big=0.6) for _ in range(20 if quick else 500)]):
             if not any(n['k'] == 'file' and len(n['data']) > 600 for n in sc.src.values()):
